@@ -143,18 +143,27 @@ func validatePolyNotInsidePoly(p1, p2 indexedLines) error {
 	for j := range p2.lines {
 		// Find intersection points.
 		var pts []XY
+		var overlapErr error
 		p1.tree.RangeSearch(p2.lines[j].box(), func(i int) error {
 			inter := p1.lines[i].intersectLine(p2.lines[j])
 			if inter.empty {
 				return nil
 			}
 			if inter.ptA != inter.ptB {
-				panic(fmt.Sprintf("already established that boundaries only "+
-					"intersect at points, but got: %v", inter))
+				// The caller has established that the boundaries only
+				// intersect at points. With coordinates at the limits of
+				// float64 (overflow to NaN, underflow to collinear) the two
+				// intersection calculations can disagree; the boundaries
+				// are then reported as overlapping rather than panicking.
+				overlapErr = violatePolysMultiTouch.errAtXY(inter.ptA)
+				return rtree.Stop
 			}
 			pts = append(pts, inter.ptA)
 			return nil
 		})
+		if overlapErr != nil {
+			return overlapErr
+		}
 		if len(pts) == 0 {
 			continue
 		}
